@@ -169,6 +169,9 @@ func check(c Case) error {
 	}
 	x := build(c)
 	text := gff.Build(x)
+	if err := compare("the sequence after Build (the writer must not change its argument)", c, x); err != nil {
+		return err
+	}
 	// the text handed back must stay what it is when another sequence is written before it is read
 	snapshot := string(text)
 	other := poly.Sequence{Sequence: strings.Repeat("tgca", len(x.Sequence)/8)}
